@@ -641,8 +641,11 @@ class Process:
             # have been reused by another process. Process identity /
             # uniqueness over time is guaranteed by (PID + creation
             # time) and that is verified in __eq__.
-            self._pid_reused = self != Process(self.pid)
-            if self._pid_reused:
+            if self != Process(self.pid):
+                # Only ever raise the flag: a concurrent call which
+                # compared against the previous owner of the PID must
+                # not be able to lower it again.
+                self._pid_reused = True
                 _pids_reused.add(self.pid)
                 raise NoSuchProcess(self.pid)
             return True
